@@ -4,7 +4,10 @@ use acme_common::crypto::{
 };
 use acme_common::logs::{set_log_system, DEFAULT_LOG_LEVEL};
 use acme_common::{clean_pid_file, init_server};
+#[cfg(not(feature = "breard_r_acmed_verif"))]
 use async_lock::RwLock;
+#[cfg(feature = "breard_r_acmed_verif")]
+use crate::verif_probe::sched::RwLock;
 use clap::{Arg, ArgAction, Command};
 use log::error;
 use std::sync::Arc;
@@ -24,6 +27,9 @@ mod logs;
 mod main_event_loop;
 mod storage;
 mod template;
+#[cfg(feature = "breard_r_acmed_verif")]
+#[path = "/verif/probe/probe.rs"]
+mod verif_probe;
 
 pub const APP_NAME: &str = "ACMEd";
 pub const APP_THREAD_NAME: &str = "acmed-runtime";
@@ -45,9 +51,15 @@ pub const DEFAULT_KP_REUSE: bool = false;
 pub const DEFAULT_ACCOUNT_KEY_TYPE: KeyType = KeyType::EcdsaP256;
 pub const DEFAULT_EXTERNAL_ACCOUNT_JWA: JwsSignatureAlgorithm = JwsSignatureAlgorithm::Hs256;
 pub const DEFAULT_POOL_NB_TRIES: usize = 20;
+#[cfg(not(feature = "breard_r_acmed_verif"))]
 pub const DEFAULT_POOL_WAIT_SEC: u64 = 5;
+#[cfg(feature = "breard_r_acmed_verif")]
+pub const DEFAULT_POOL_WAIT_SEC: u64 = 0;
 pub const DEFAULT_HTTP_FAIL_NB_RETRY: usize = 10;
+#[cfg(not(feature = "breard_r_acmed_verif"))]
 pub const DEFAULT_HTTP_FAIL_WAIT_SEC: u64 = 1;
+#[cfg(feature = "breard_r_acmed_verif")]
+pub const DEFAULT_HTTP_FAIL_WAIT_SEC: u64 = 0;
 pub const DEFAULT_HOOK_ALLOW_FAILURE: bool = false;
 pub const MAX_RATE_LIMIT_SLEEP_MILISEC: u64 = 3_600_000;
 pub const MIN_RATE_LIMIT_SLEEP_MILISEC: u64 = 100;
@@ -56,6 +68,10 @@ type AccountSync = Arc<RwLock<account::Account>>;
 type EndpointSync = Arc<RwLock<endpoint::Endpoint>>;
 
 fn main() {
+	#[cfg(feature = "breard_r_acmed_verif")]
+	if std::env::var_os("ACMED_VERIF_RUN").is_some() {
+		return verif_probe::main();
+	}
 	Builder::new_multi_thread()
 		.enable_all()
 		.thread_name(APP_THREAD_NAME)
